@@ -1,4 +1,4 @@
 #!/bin/bash
 # Runs the repository suite and prints the sorted list of failing test ids (for before/after comparison of fix: commits).
 REPO=${1:-/repo}
-cd "$REPO" && /venv/bin/python -m pytest -q -p no:cacheprovider --timeout=900 --continue-on-collection-errors -q 2>&1 | grep -E '^(FAILED|ERROR)' | sed 's/ - .*//' | sort
+cd "$REPO" && /venv/bin/python -m pytest -q -p no:cacheprovider --timeout=900 --continue-on-collection-errors -q 2>&1 | grep -E '^(FAILED|ERROR)' | sed 's/ - .*//' | sort; git -C "$REPO" checkout -- test_reports 2>/dev/null
